@@ -261,21 +261,27 @@ def _optical_forms():
     return F
 
 
-@ob("C17.frame_optical", kind="B", cases=[dict(form=k, dtype=d) for k in _optical_forms() for d in ("float64", "float32", "uint8")], funcs=FUNCS + ["darsia.image.image:OpticalImage.to_trichromatic", "darsia.image.image:OpticalImage.to_monochromatic"],
+@ob("C17.frame_optical", kind="B", cases=[dict(form=k, dtype=d) for k in _optical_forms() for d in ("float64", "float32", "uint8", "float32-wide", "float64-wide", "uint16")], funcs=FUNCS + ["darsia.image.image:OpticalImage.to_trichromatic", "darsia.image.image:OpticalImage.to_monochromatic"],
     samples=(1, 2), cite="type and colour-space conversions that return an image ... leave every argument (pixel data, metadata ...) exactly as it was",
     note="bounded: OpenCV colour conversions on seeded random optical images of every supported dtype; the snapshot includes the dtype")
 def c17_frame_optical(ctx, form, dtype):
     rng = np.random.default_rng(ctx.rng.randrange(1 << 30))
     raw = rng.random((8, 12, 3))
-    raw = raw.astype(dtype) if dtype != "uint8" else (255 * raw).astype(np.uint8)
+    if dtype.endswith("-wide"):
+        # float images are not confined to the unit interval (overshoots after corrections, HDR data)
+        raw = (1.6 * raw - 0.3).astype(dtype.split("-")[0])
+    elif dtype == "uint16":
+        raw = (65535 * raw).astype(np.uint16)
+    else:
+        raw = raw.astype(dtype) if dtype != "uint8" else (255 * raw).astype(np.uint8)
     import contextlib, io
     with contextlib.redirect_stdout(io.StringIO()):
         a = darsia.OpticalImage(raw.copy(), dimensions=[1.0, 1.5], color_space="RGB", name="o")
         snap = _deep(a)
         try:
             res = _optical_forms()[form](a)
-        except (NotImplementedError, ValueError, KeyError):
-            res = None            # conversion not offered for this key / dtype: nothing to compare
+        except (NotImplementedError, ValueError, KeyError, __import__("cv2").error):
+            res = None            # conversion not offered for this key / dtype (OpenCV refuses e.g. 16-bit LAB): nothing to compare, the operand must still be intact
     ctx.ensure(f"{form}/{dtype}: operand exactly as it was (data, dtype, metadata incl. colour space)", _same_deep(a, snap) and a.img.dtype == raw.dtype and a.color_space == "RGB")
     if isinstance(res, darsia.Image):
         ctx.ensure(f"{form}/{dtype}: result is a new object", res is not a)
